@@ -118,6 +118,6 @@ def scen_key(s):
         key += '|kind=%s' % s['req']['kind']
     if inj.get('res', 'plain') not in ('plain', 'gen'):
         key += '|res=%s' % inj['res']
-    if inj.get('fin', 'ok') == 'rewrite':
-        key += '|fin=rewrite'
+    if inj.get('fin', 'ok') in ('rewrite', 'lclen'):
+        key += '|fin=' + inj['fin']
     return key
